@@ -85,10 +85,18 @@ def adapt(case):
         if keyable and case['frame']['n'] % 3 == 0:
             # a text PRIMARY KEY (SQLite lets it hold NULLs)
             keyable[0]['decl'] = 'text PRIMARY KEY'
+            if case['frame']['n'] and case['frame']['n'] % 2 == 0:
+                keyable[0]['cells'][-1] = None
         if case.get('nul') is False and len(case['frame']['cols']) >= 2:
-            # a composite UNIQUE constraint over the first two columns
-            # (only created when their value pairs are in fact distinct)
-            case['frame']['key'] = 'unique'
+            # a composite UNIQUE constraint / PRIMARY KEY over the first two
+            # columns (only created when their value pairs are in fact
+            # distinct); either may hold NULLs
+            case['frame']['key'] = ('unique' if case['frame']['n'] % 2
+                                    else 'primary')
+            c0 = case['frame']['cols'][0]
+            if (case['frame']['n'] and case['frame']['n'] % 4 == 0
+                    and F.nullable(c0['kind'])):
+                c0['cells'][0] = None
     return case
 
 
